@@ -414,9 +414,14 @@ def abstract_state(net, ep, what, nonce):
     return (what, nonce, tries, done, infl)
 
 
+class _EnoughViolations(Exception):
+    pass
+
+
 def explore_cfg(cfg, acc):
     states = set()
     transitions = set()
+    bad_runs = [0]
 
     def run(ch):
         trail = []
@@ -456,7 +461,22 @@ def explore_cfg(cfg, acc):
                                     labels=list(ch.labels)),
                           msg + "\n  config %r\n  fates %r" % (cfg, ep.fates),
                           size=len(ch.choices) + 10 * ch.deviations())
-    n = explore(run, bound=cfg["bound"], budget=400)
+        # a configuration that keeps failing (other than by the recorded
+        # sequence-number alias) is not explored to the end: broken code can
+        # blow the execution tree up by orders of magnitude
+        if any(not (k == "callback_wrong_reply" and
+                    e.get("cause") == "seq_alias_after_wrap")
+               for k, e, _ in problems):
+            bad_runs[0] += 1
+            if bad_runs[0] >= 300:
+                raise _EnoughViolations()
+    try:
+        n = explore(run, bound=cfg["bound"], budget=400)
+    except _EnoughViolations:
+        n = acc.evaluations
+        acc.cap("configuration %r abandoned after 300 violating executions"
+                % ({k: cfg[k] for k in ("shape", "window", "n_tries",
+                                        "seq")},))
     acc.states += len(states)
     acc.transitions += len(transitions)
     return n
